@@ -107,6 +107,24 @@ def c16_b(ctx):
                       '`{}` is not computed from self.samples'.format(src(c)[:70]), fn=m, node=c)
     if n < 4:
         ctx.undecided('expected >= 4 weighted statistics, found {}'.format(n))
+    # weights and samples are plain attributes that are re-assigned after construction (SMC sets
+    # sample.weights itself): a statistic of them must be recomputed on every access
+    caching = ('cached_property', 'lru_cache', 'cache')
+    for m in s.methods.values():
+        reads = any(isinstance(x, ast.Attribute) and isinstance(x.value, ast.Name) and
+                    x.value.id == 'self' and x.attr in ('weights', 'samples', 'outputs')
+                    for x in ast.walk(m.node))
+        if not reads:
+            continue
+        decs = []
+        for d in m.node.decorator_list:
+            f = d.func if isinstance(d, ast.Call) else d
+            decs.append(f.attr if isinstance(f, ast.Attribute) else getattr(f, 'id', ''))
+        bad = [d for d in decs if d in caching]
+        ctx.check(not bad, m, 'statistic recomputed on every access', 'plain property / method',
+                  '{} is cached ({}): after the weights or samples are re-assigned it keeps '
+                  'reporting the old value while the other statistics use the new one'.format(
+                      m.name, ', '.join(bad)), fn=m, node=m.node)
     # a method that takes the level alpha hands it on
     for m in s.methods.values():
         if 'alpha' not in m.all_params:
